@@ -1150,9 +1150,15 @@ def _impl_cfg(case):
 
             def snap(act, n, extra=None):
                 import gc
-                gc.collect()       # a socket object whose bind failed lives as long as the traceback of the OSError
-                ph = env.photo()
                 dict_fds = set(k.fileno() for k in arb.sockets.values() if k.fileno() >= 0)
+                ph = env.photo()
+                # a socket object whose bind failed lives as long as the traceback of the OSError (a reference
+                # cycle): let the collector run before looking, young generations first (the heap of a check is big)
+                for gen in (1, 2):
+                    if not [e for e in ph if e[2] == "s" and e[0] not in infra and e[0] not in dict_fds]:
+                        break
+                    gc.collect(gen)
+                    ph = env.photo()
                 st = {"act": act, "recs": [dict(c) for c in calls[n:]],
                       "socks": [[nm, (describe(k.fileno(), ph) if k.fileno() >= 0 else None)]
                                 for nm, k in arb.sockets.items()],
